@@ -867,6 +867,8 @@ class CSSCalc(CSSFunction):
             Prod(
                 name='CALC',
                 match=lambda t, v: t == types.FUNCTION and normalize(v) == 'calc(',
+                # as the name of every other function
+                toSeq=lambda t, tokens: (t[0], normalize(t[1])),
             ),
             PreDef.S(optional=True),
             _operant(),
